@@ -1000,9 +1000,11 @@ def _np_normal(I, st, pos, kws, node):
         raise EngineError("np.random.normal size")
     if isinstance(scale, Ref):
         rs = L.rseq(I, st, scale)
-        excs, ok = I.may_raise(st, z3.And(rs.length != n, rs.length != 1), "ValueError", "shape mismatch: scale vs size", I.where(node))
+        k = z3.Int(fresh_name("k"))
+        neg = z3.Exists([k], z3.And(k >= 0, k < rs.length, to_real(rs.elem(k)) < 0))
+        excs, ok = I.may_raise(st, z3.Or(z3.And(rs.length != n, rs.length != 1), neg), "ValueError", "shape mismatch: scale vs size / scale < 0", I.where(node))
     else:
-        excs, ok = [], st
+        excs, ok = I.may_raise(st, to_real(scale) < 0, "ValueError", "scale < 0", I.where(node))
     res = list(excs)
     if ok is not None:
         ref = L.fresh_seq(ok, "ndarray", "real", n, "noise")
